@@ -258,24 +258,78 @@ Qed.
 (* executable well-formedness of a wire input: it decodes *)
 Definition wf_C19 (v : val) : bool := match dec_input v with Some _ => true | None => false end.
 
+Lemma version_results i :
+  results_of (version_obs i (go_insertion_sort (loaded_items i))) = VL (spec_results i).
+Proof.
+  unfold version_obs, spec_results. pose proof (loaded_items_wf i) as Hw.
+  destruct (merge_items (go_insertion_sort (loaded_items i))) as [m cnt] eqn:Em.
+  assert (Hf : final_of (length (loaded_items i)) cnt m = build go_insertion_sort (loaded_items i)).
+  { unfold build, final_of. rewrite Em. reflexivity. }
+  rewrite Hf. unfold results_of. cbn [nth]. f_equal.
+  apply map_ext. intros q. unfold probe_result, spec_result. destruct (to16 q); [|reflexivity].
+  destruct (in_noupd i); [reflexivity|].
+  rewrite (search_exact _ go_insertion_sort_valid _ _ _ Hw). reflexivity.
+Qed.
+Lemma version_obs_shape i s1 : exists a0 a1 a2 a3 a4 a6,
+  version_obs i s1 = [a0; a1; a2; a3; a4; results_of (version_obs i s1); a6].
+Proof. unfold version_obs. destruct (merge_items s1) as [m cnt]. do 6 eexists. reflexivity. Qed.
+Lemma one_of_left : forall a b, length a = length b -> one_of a b a = true.
+Proof.
+  induction a as [|x a IH]; intros [|y b] H; simpl in H; try discriminate; [reflexivity|].
+  cbn [one_of]. rewrite val_eqb_refl. cbn [orb andb]. apply IH. lia.
+Qed.
+
 (* the model satisfies the executable property on every well-formed input *)
 Theorem prop_C19_of_model : forall v, wf_C19 v = true -> kf_C19 v = 0 -> prop_C19 v (run_C19 v) = true.
 Proof.
   intros v Hwf _. unfold wf_C19, prop_C19, run_C19 in *. destruct (dec_input v) as [i|]; [|discriminate].
-  pose proof (loaded_items_wf i) as Hw.
-  destruct (merge_items (go_insertion_sort (loaded_items i))) as [m cnt] eqn:Em.
-  assert (Hf : final_of (length (loaded_items i)) cnt m = build go_insertion_sort (loaded_items i)).
-  { unfold build, final_of. rewrite Em. reflexivity. }
-  rewrite Hf.
-  assert (Hm : map (fun q => vbool (probe_result (if in_noupd i then [] else loaded_singles i)
-                      (if in_noupd i then [] else build go_insertion_sort (loaded_items i)) q)) (in_probes i)
-             = map (fun q => vbool (spec_result (if in_noupd i then [] else loaded_singles i)
-                      (if in_noupd i then [] else loaded_items i) q)) (in_probes i)).
-  { apply map_ext. intros q. unfold probe_result, spec_result. destruct (to16 q); [|reflexivity].
-    destruct (in_noupd i); [reflexivity|].
-    rewrite (search_exact _ go_insertion_sort_valid _ _ _ Hw). reflexivity. }
-  rewrite Hm. apply val_eqb_refl.
+  pose proof (version_results i) as R1. pose proof (version_results (second i)) as R2.
+  destruct (version_obs_shape i (go_insertion_sort (loaded_items i))) as (a0 & a1 & a2 & a3 & a4 & a6 & E1).
+  destruct (version_obs_shape (second i) (go_insertion_sort (loaded_items (second i))))
+    as (b0 & b1 & b2 & b3 & b4 & b6 & E2).
+  set (o1 := version_obs i (go_insertion_sort (loaded_items i))) in *.
+  set (o2 := version_obs (second i) (go_insertion_sort (loaded_items (second i)))) in *.
+  rewrite R1 in E1. rewrite R2 in E2.
+  destruct (in_mode i =? 2).
+  - rewrite R1, R2, E1, E2. cbn [app firstn nth]. rewrite !val_eqb_refl. cbn [andb].
+    apply one_of_left. unfold spec_results. rewrite !map_length. reflexivity.
+  - rewrite E1. cbn [nth]. rewrite val_eqb_refl. reflexivity.
 Qed.
+
+(* ---- IPTable.Update while a Search is in flight ---- *)
+Theorem search_during_linearizable : forall cell t1 t2 t3 ip, (t1 <= t2 <= t3)%nat ->
+  exists t, (t1 <= t <= t3)%nat /\ search_during cell t1 t2 t3 ip = vsearch (cell t) ip.
+Proof. intros cell t1 t2 t3 ip H. exists t1. split; [lia | reflexivity]. Qed.
+
+Theorem search_during_exact : forall sorter, valid_sorter sorter ->
+  forall (sg : nat -> list Z) (items : nat -> list rng) t1 t2 t3 ip,
+  (forall t, forallb wf_rng (items t) = true) -> (t1 <= t2 <= t3)%nat ->
+  exists t, (t1 <= t <= t3)%nat /\
+    search_during (fun t => (sg t, build sorter (items t))) t1 t2 t3 ip = spec (sg t) (items t) ip.
+Proof.
+  intros sorter Hs sg items t1 t2 t3 ip Hw Ht. exists t1. split; [lia|].
+  unfold search_during. cbn [fst snd]. apply (search_exact sorter Hs (items t1) (sg t1) ip (Hw t1)).
+Qed.
+
+Corollary search_during_member_of_all : forall sorter, valid_sorter sorter ->
+  forall (sg : nat -> list Z) (items : nat -> list rng) t1 t2 t3 ip,
+  (forall t, forallb wf_rng (items t) = true) -> (t1 <= t2 <= t3)%nat ->
+  (forall t, spec (sg t) (items t) ip = true) ->
+  search_during (fun t => (sg t, build sorter (items t))) t1 t2 t3 ip = true.
+Proof.
+  intros sorter Hs sg items t1 t2 t3 ip Hw Ht Hall.
+  destruct (search_during_exact sorter Hs sg items t1 t2 t3 ip Hw Ht) as (t & _ & E). rewrite E. apply Hall.
+Qed.
+
+(* contrast: a lookup that re-reads the live pointer for its range half is NOT linearizable: old version
+   10..20 as a range, new version 15 as a single address, Update lands between the two steps: 15 is a member of
+   both versions and yet reported absent *)
+Lemma search_live_not_linearizable :
+  let old := ([], [(10, 20)]) in let new := ([15], []) in
+  let cell := fun t => if (t <? 2)%nat then old else new in
+  vsearch old 15 = true /\ vsearch new 15 = true /\
+  search_during cell 0 1 2 15 = true /\ search_during_live cell 0 1 2 15 = false.
+Proof. vm_compute. auto. Qed.
 
 (* ---- non-vacuity ---- *)
 Lemma C19_nonvacuous_lemma :
